@@ -43,6 +43,9 @@ SP_HARNESSES = [
     {'name': 'h_realsp_unequal', 'src': 'real/h_realsp.cpp', 'entry': 'h_realsp', 'repo_srcs': srcsets_real.REAL, 'defines': ['UNEQUAL', 'VBK_KI=2'], 'covers': [1, 2], 'jobs': 2,
      'obligations': ['REAL trees: a VTB on the lighter VBK branch flips VBK fork resolution while its ALT chain is applied; after switching back the VBK best chain is again the heavier branch and the digest of all three trees equals the one recorded before (POP state depends only on the active chain, no tie involved)'],
      'rungs': {'quick': [{'bound': 'VBK branches 2-3-5 (heavier) and 2-4, VBK keystone interval 2, VTB endorsing block 4 carried by either block of the candidate chain, either delivery order', 'timeout': 250}], 'thorough': [{'bound': 'as quick', 'timeout': 600}]}},
+    {'name': 'h_realsp_refs', 'src': 'real/h_realsp.cpp', 'entry': 'h_realsp', 'repo_srcs': srcsets_real.REAL, 'defines': ['REFS'], 'covers': [1, 2], 'jobs': 2,
+     'obligations': ['REAL trees: a BTC block referenced by VTBs of two ALT forks at different VBK heights; the fork validated earlier wins comparePopScore so the active chain is unapplied underneath it; afterwards the BTC block carries exactly the reference height of the winning chain, and exactly the other one after switching back'],
+     'rungs': {'quick': [{'bound': 'containing VBK heights (2,3) or (3,2) for the two forks; history setState(B), setState(A), comparePopScore(A,B), setState(A)', 'timeout': 250}], 'thorough': [{'bound': 'as quick', 'timeout': 600}]}},
 ]
 FIN_HARNESSES = [
     {'name': 'h_realfin', 'src': 'real/h_realfin.cpp', 'entry': 'h_realfin', 'repo_srcs': srcsets_real.REAL, 'covers': [1, 2, 3], 'jobs': 8,
